@@ -51,13 +51,13 @@ MIN_HITS = {
         'mon:finite': 400, 'mon:range': 200, 'mon:member': 200, 'mon:identity': 60, 'mon:unbiased': 80,
         'mon:tern': 100, 'mon:ternbias': 30, 'mon:drive': 40, 'mon:linear': 200, 'mon:errbound': 100,
         'mon:clientkeys': 20, 'mon:rounds': 60, 'mon:bits': 400, 'mon:zerodraw': 15, 'hook:uq': 300, 'hook:tq': 100, 'hook:rot': 200,
-        'class:zero-leaf-drive': 2, 'class:identical-clients': 10, 'class:many-clients': 5, 'class:huge-cohort': 4, 'coords:unbiased-offgrid': 2000,
+        'class:zero-leaf-drive': 2, 'class:identical-clients': 10, 'class:many-clients': 5, 'class:huge-cohort': 4, 'hit:reshaped-round': 60, 'coords:unbiased-offgrid': 2000,
     },
     'thorough': {
         'mon:finite': 4000, 'mon:range': 2000, 'mon:member': 2000, 'mon:identity': 600, 'mon:unbiased': 800,
         'mon:tern': 1000, 'mon:ternbias': 300, 'mon:drive': 300, 'mon:linear': 2000, 'mon:errbound': 1000,
         'mon:clientkeys': 200, 'mon:rounds': 600, 'mon:bits': 4000, 'mon:zerodraw': 15, 'hook:uq': 3000, 'hook:tq': 1000, 'hook:rot': 2000,
-        'class:zero-leaf-drive': 20, 'class:identical-clients': 100, 'coords:unbiased-offgrid': 20000,
+        'class:zero-leaf-drive': 20, 'class:identical-clients': 100, 'coords:unbiased-offgrid': 20000, 'hit:reshaped-round': 300,
     },
 }
 TECHNIQUE = ('runtime monitoring: float64 grid / TernGrad / DRIVE / bit-count oracles over vmapped Monte-Carlo '
@@ -913,6 +913,72 @@ def run_agg(ctx, jax, jnp, C):
                     {**wit, 'hook': tag, 'first_repeat': next((j for j, k_ in enumerate(ks) if k_ in ks[:j]), None)})
         ctx.count('class:huge-cohort')
     ctx.case_done(('hugecohort', kind, K), sample=wit, klass=['hugecohort', f'agg:{kind}'])
+
+  # ---- one aggregator OBJECT across rounds whose trees share the container structure (same dict keys / nesting) but not
+  #      the leaf shapes, with the state carried along and with a fresh init() in between: the bit increment of every round
+  #      is the documented formula of THAT round's tree (nothing about an earlier tree may be remembered)
+  RESHAPE = [
+      lambda a, b: {'w': (a,), 'b': (b,)},
+      lambda a, b: {'layer0': {'w': (a, 2), 'b': (b,)}, 'layer1': {'w': (3,)}},
+      lambda a, b: [(a,), ((b,), (2, 2))],
+      lambda a, b: (a, b),               # bare array
+  ]
+  for cid, rng in ctx.cases('reshaped', len(KINDS) * len(RESHAPE) * (1 if ctx.quick else 4)):
+    i = int(cid.split('/')[1])
+    kind = KINDS[i % len(KINDS)]
+    mk = RESHAPE[(i // len(KINDS)) % len(RESHAPE)]
+    levels = int([2, 4, 5, 16][rng.randint(4)])
+    dims = [(int(rng.randint(1, 6)), int(rng.randint(1, 4))), (int(rng.randint(40, 90)), int(rng.randint(5, 12)))]
+    sched = [0, 1, 0, 1, 1, 0] if rng.rand() < 0.5 else [1, 0, 0, 1, 0, 1]
+    reinit_at = int(rng.randint(2, 5))
+    wit = {'family': 'reshaped', 'kind': kind, 'levels': levels, 'leaf_dims': dims, 'schedule': sched, 'reinit_before_round': reinit_at}
+    r0 = ctx.call(f'agg.{kind}.init', lambda: (lambda a: (a, a.init()))(build(kind, levels, jax.random.PRNGKey(int(rng.randint(2**31 - 1))))),
+                  witness=wit)
+    ok_rounds = 0
+    if r0.ok:
+      agg, state = r0.value
+      for rnd, which in enumerate(sched):
+        if rnd == reinit_at:
+          rr = ctx.call(f'agg.{kind}.init', agg.init, witness=wit)
+          if not rr.ok:
+            break
+          state = rr.value
+        st = mk(*dims[which])
+        K = int(rng.randint(1, 4))
+        trees = [struct_map(st, lambda s_: jnp.asarray(rng.randn(*s_).astype(np.float32))) for _ in range(K)]
+        sizes = [int(np.asarray(l).size) for l in leaves_of(trees[0])]
+        rwit = {**wit, 'round': rnd, 'structure': repr(st), 'clients': K}
+        r = ctx.call(f'agg.{kind}.apply', agg.apply, [(b'r%d' % j, trees[j], 1.0 + j) for j in range(K)], state, witness=rwit)
+        if not r.ok:
+          break
+        out, new_state = r.value
+        got_shapes = [tuple(np.asarray(l).shape) for l in leaves_of(out)]
+        ctx.check(got_shapes == [tuple(np.asarray(l).shape) for l in leaves_of(trees[0])], 'reshaped/output-shapes',
+                  'aggregate of a round has leaf shapes different from that round\'s client trees', {**rwit, 'got': got_shapes})
+        inc = float(np.asarray(new_state.num_bits)) - float(np.asarray(state.num_bits))
+        if kind == 'arith':
+          # data dependent: recover each client's quantized tree with one-hot weights from the same state
+          per_client = []
+          for j in range(K):
+            hot = [(b'r%d' % t, trees[t], 1.0 if t == j else 0.0) for t in range(K)]
+            rj = ctx.call(f'agg.{kind}.apply', agg.apply, hot, state, witness={**rwit, 'one_hot': j})
+            if rj.ok:
+              per_client.append(sum(arithmetic_bits_ref(np.asarray(l)) for l in leaves_of(rj.value[0])))
+          if len(per_client) != K:
+            break
+          want = sum(per_client) / K
+          btol = 3e-5 * want + 8 * EPS32 * float(np.asarray(new_state.num_bits)) + 0.02
+        else:
+          want = plain_bits_ref(kind, levels, sizes)
+          btol = 2e-6 * want + 8 * EPS32 * float(np.asarray(new_state.num_bits))
+        ctx.count('hit:reshaped-round')
+        ctx.check(abs(inc - want) <= btol, f'bits/{kind}-increment-differs-from-formula',
+                  f'num_bits grew by {inc!r} in round {rnd}, documented formula for this round\'s tree gives {want!r} '
+                  '(same aggregator object, earlier rounds had other leaf shapes)',
+                  {**rwit, 'increment': inc, 'formula': want, 'leaf_sizes': sizes})
+        state = new_state
+        ok_rounds += 1
+    ctx.case_done(('reshaped', kind, i, levels, tuple(dims)) if ok_rounds >= 3 else None, sample=wit, klass=['reshaped', f'agg:{kind}'])
 
   for cid, rng in ctx.cases('agg', P * len(KINDS) * sweeps):
     i = int(cid.split('/')[1])
